@@ -21,6 +21,7 @@ Theorem C01_one_call_chunked : forall c st g vec, vcfg c -> c_chunk c = true -> 
   if g <? w_gi st then write_one c st g vec = (-3, st)
   else exists st', write_one c st g vec = (0, st') /\ Inv c st' /\
          w_gi st' = (if zlen vec =? 0 then w_gi st else g + zlen vec) /\
+         (ms_incr (map f_ms (all_files st)) -> ms_incr (map f_ms (all_files st'))) /\
          forall k, lookup_st st' k =
            if (c_start c + g <=? k) && (k <? c_start c + g + zlen vec)
            then nth_error vec (Z.to_nat (k - c_start c - g)) else lookup_st st k.
